@@ -37,7 +37,7 @@ Pick(s, n) == s[(n % Len(s)) + 1]
 TAtom(op, s, sp, k, d, f) == [a |-> "time", op |-> op, side |-> s, sp |-> sp, k |-> k, d |-> d, f |-> f]
 \* time atoms available at position i of a condition
 TimeAlpha(i) ==
-  IF FormMode = "all"
+  IF FormMode \in {"all", "tail"}
   THEN UNION {{TAtom(op, s, sp, k, d, FormsFor(k, d)[j]) : j \in 1..Len(FormsFor(k, d))} :
                 op \in Ops, s \in Sides, sp \in SeqRange(SpellSeq), k \in Bases, d \in Offs}
   ELSE {TAtom(op, s,
@@ -69,8 +69,22 @@ NTAlpha ==
                                    Or(Bool(FALSE), Bool(FALSE)), Or(Tag("t1", "!=", "x"), Fld(">=", 2))} ELSE {})
 
 NTime(s) == Len(SelectSeq(s, IsTime))
+\* FormMode = "tail" (C18): conditions that END in the pair of bounds SetTimeRange itself writes
+\* ( time >= '<rfc>' AND time < '<rfc>' ) with another time bound - any operator, side, spelling, form -
+\* and possibly a tag predicate in front of it: the shape a statement has when its author wrote a window
+\* by hand after a bound of his own.  3 or 4 atoms: [T] [tag] lo hi, in both orders of the first two.
+TailLo == {TAtom(">=", "L", "time", k, 0, "rfc") : k \in Bases}
+TailHi == {TAtom("<", "L", "time", k, 0, "rfc") : k \in Bases}
+TagX == Tag("t1", "=", "x")
+TailAfter(s) ==
+  CASE Len(s) = 0 -> TimeAlpha(1) \cup {TagX}
+    [] Len(s) = 1 -> IF s[1] = TagX THEN TimeAlpha(2) ELSE {TagX} \cup TailLo
+    [] Len(s) = 2 -> IF s[1] = TagX \/ s[2] = TagX THEN TailLo ELSE TailHi
+    [] Len(s) = 3 -> IF s[1] = TagX \/ s[2] = TagX THEN TailHi ELSE {}
+    [] OTHER -> {}
 \* atoms that may follow the sequence s
-AlphaAfter(s) == (IF NTime(s) < MaxT THEN TimeAlpha(Len(s) + 1) ELSE {}) \cup NTAlpha
+AlphaAfter(s) == IF FormMode = "tail" THEN TailAfter(s)
+                 ELSE (IF NTime(s) < MaxT THEN TimeAlpha(Len(s) + 1) ELSE {}) \cup NTAlpha
 \* the conditions over the atom sequence s: one per parenthesisation
 Conds(s) == {Fill(sh, s) : sh \in ShapesFor(Len(s), ShapeLevel)}
 =============================================================================
